@@ -18,6 +18,9 @@ import Midgard.Proofs.C20Algebra
 import Midgard.Proofs.C20Lagrange
 import Midgard.Proofs.C20Dop
 import Midgard.Proofs.C20Deriv
+import Midgard.Proofs.C20Bary
+import Midgard.Proofs.C20Nputil
+import Midgard.Proofs.C20Spherical
 
 namespace Midgard.Props.C20
 open Midgard.Numeric Midgard.Generated.C20 Midgard.Proofs.C20
@@ -267,6 +270,81 @@ theorem linear_linear (xs : List ℚ) (r₁ r₂ r₃ : List (List ℚ)) (dim : 
     (o₃.getD j []).getD c 0 = a * (o₁.getD j []).getD c 0 + b * (o₂.getD j []).getD c 0 :=
   Proofs.C20.linear_linear xs r₁ r₂ r₃ dim xnew a b o₁ o₂ o₃ h₁ h₂ h₃ c hc hcomb j hj
 
+/-! ## The interpolating polynomial (`kind="barycentric_interpolator"`: SciPy's `BarycentricInterpolator`,
+specified by `barycentric` — the Lagrange interpolant over the whole sample set; the tie is the correspondence) -/
+
+/-- the specification *is* the interpolating polynomial of the samples as given (Mathlib's `Lagrange.interpolate`) -/
+theorem barycentric_is_interpolating_polynomial (xs : List ℚ) (rows : List (List ℚ)) (dim : ℕ)
+    (xnew : List ℚ) (out : List (List ℚ)) (h : barycentric xs rows dim xnew = .ok out)
+    (c : ℕ) (hc : c < dim) (j : ℕ) (hj : j < xnew.length) :
+    (out.getD j []).getD c 0 = (Lagrange.interpolate (Finset.range xs.length) (fun i => xs.getD i 0)
+      (fun i => (rows.getD i []).getD c 0)).eval (xnew.getD j 0) :=
+  barycentric_eq_interpolate xs rows dim xnew out h c hc j hj
+
+/-- reproduces the data at the nodes -/
+theorem barycentric_nodes (xs : List ℚ) (rows : List (List ℚ)) (dim : ℕ)
+    (xnew : List ℚ) (out : List (List ℚ)) (h : barycentric xs rows dim xnew = .ok out)
+    (i j : ℕ) (hi : i < xs.length) (hj : j < xnew.length) (hx : xnew.getD j 0 = xs.getD i 0) :
+    out.getD j [] = (List.range dim).map (fun c => (rows.getD i []).getD c 0) :=
+  Proofs.C20.barycentric_nodes xs rows dim xnew out h i j hi hj hx
+
+/-- invariant under reordering of the samples -/
+theorem barycentric_perm_invariant (xs xs' : List ℚ) (rows rows' : List (List ℚ)) (dim : ℕ)
+    (xnew : List ℚ) (hl : rows.length = xs.length) (hl' : rows'.length = xs'.length)
+    (hperm : (xs.zip rows).Perm (xs'.zip rows'))
+    (hdist : strictInc ((sortBy (xs.zip rows)).map (·.1)) = true) :
+    barycentric xs' rows' dim xnew = barycentric xs rows dim xnew :=
+  barycentric_perm xs xs' rows rows' dim xnew hl hl' hperm hdist
+
+/-- linear in the data -/
+theorem barycentric_linear (xs : List ℚ) (r₁ r₂ r₃ : List (List ℚ)) (dim : ℕ)
+    (xnew : List ℚ) (a b : ℚ) (o₁ o₂ o₃ : List (List ℚ))
+    (h₁ : barycentric xs r₁ dim xnew = .ok o₁) (h₂ : barycentric xs r₂ dim xnew = .ok o₂)
+    (h₃ : barycentric xs r₃ dim xnew = .ok o₃) (c : ℕ) (hc : c < dim)
+    (hcomb : ∀ i, i < xs.length →
+      (r₃.getD i []).getD c 0 = a * (r₁.getD i []).getD c 0 + b * (r₂.getD i []).getD c 0)
+    (j : ℕ) (hj : j < xnew.length) :
+    (o₃.getD j []).getD c 0 = a * (o₁.getD j []).getD c 0 + b * (o₂.getD j []).getD c 0 :=
+  Proofs.C20.barycentric_linear xs r₁ r₂ r₃ dim xnew a b o₁ o₂ o₃ h₁ h₂ h₃ c hc hcomb j hj
+
+/-- reproduces every polynomial of degree below the number of samples, at every abscissa -/
+theorem barycentric_polynomial (xs : List ℚ) (rows : List (List ℚ)) (dim : ℕ)
+    (xnew : List ℚ) (out : List (List ℚ)) (h : barycentric xs rows dim xnew = .ok out)
+    (c : ℕ) (hc : c < dim) (P : Polynomial ℚ) (hdeg : P.degree < (xs.length : ℕ))
+    (hdata : ∀ i, i < xs.length → (rows.getD i []).getD c 0 = P.eval (xs.getD i 0))
+    (j : ℕ) (hj : j < xnew.length) : (out.getD j []).getD c 0 = P.eval (xnew.getD j 0) :=
+  barycentric_poly xs rows dim xnew out h c hc P hdeg hdata j hj
+
+/-- for three or more samples it is the Lagrange interpolator of the library with the window set to all samples -/
+theorem barycentric_eq_full_window_lagrange (xs : List ℚ) (rows : List (List ℚ)) (dim : ℕ) (xnew : List ℚ)
+    (hn : 3 ≤ xs.length) (hl : rows.length = xs.length) :
+    barycentric xs rows dim xnew = lagrange xs rows dim xs.length false false 1 xnew := by
+  have hlen : ((sortBy (xs.zip rows)).map (·.1)).length = xs.length := by
+    rw [List.length_map, (sortBy_perm _).length_eq]; simp [List.length_zip, hl]
+  have h0 : xs.length ≠ 0 := by omega
+  have h3 : ¬ xs.length < 3 := by omega
+  simp only [barycentric, lagrange, hl, hlen, h0, h3, bne_self_eq_false, Bool.false_eq_true, ↓reduceIte,
+    gt_iff_lt, lt_self_iff_false, Bool.false_and]
+
+/-! ## `nputil.norm`, `nputil.unit_vector`, `nputil.take` -/
+
+/-- `unit_vector(v)` has norm 1 and `norm(v) · unit_vector(v) = v`, for every non-zero vector of any length
+(`n` is the norm: any number with `n² = Σ vᵢ²`) -/
+theorem unit_vector_identities (v : List ℚ) (n : ℚ) (hn : n ≠ 0) (h : n * n = normSq v) :
+    normSq (unitVector v n) = 1 ∧ (unitVector v n).map (n * ·) = v :=
+  ⟨unitVector_normSq v n hn h, unitVector_parallel v n hn⟩
+
+/-- the norm is positive definite and absolutely homogeneous: `‖v‖² ≥ 0`, `= 0` only for the zero vector,
+`‖a·v‖² = a²‖v‖²` -/
+theorem norm_identities (v : List ℚ) (a : ℚ) :
+    0 ≤ normSq v ∧ (normSq v = 0 → ∀ x ∈ v, x = 0) ∧ normSq (v.map (a * ·)) = a * a * normSq v :=
+  ⟨normSq_nonneg v, normSq_eq_zero v, normSq_scale a v⟩
+
+/-- `take(v, i)` picks component `i` of every row -/
+theorem take_last_axis (rows : List (List ℚ)) (i k : ℕ) (hk : k < rows.length) :
+    (takeLast rows i).length = rows.length ∧ (takeLast rows i).getD k 0 = (rows.getD k []).getD i 0 :=
+  ⟨takeLast_length rows i, takeLast_getD rows i k hk⟩
+
 /-! ## Dilution of precision -/
 
 /-- GDOP² = PDOP² + TDOP² and PDOP² = HDOP² + VDOP² -/
@@ -321,6 +399,31 @@ theorem plate_table_perp (model plate : String) (p : ℚ) (pos v : V3)
     simp only [Bool.and_eq_true, beq_iff_eq] at hq
     exact ⟨(cross_perp _ _).1, row, hm, hq.1, hq.2, (cross_perp _ _).2⟩
 
+/-! ## Euler pole: spherical ↔ Cartesian (`PlateMotion.to_cartesian` / `to_spherical`) -/
+
+/-- the executed formula of `to_cartesian` (cos/sin of latitude and longitude as parameters on the unit circle):
+the rotation rate that `to_spherical` computes from its result is the one put in (squared: `sqrt` is not
+modelled), and the result is `3.6 ω` times the unit vector `(cos lat cos lon, cos lat sin lon, sin lat)` -/
+theorem to_cartesian_rate_and_direction (cl sl co so w : ℚ) (h1 : cl ^ 2 + sl ^ 2 = 1) (h2 : co ^ 2 + so ^ 2 = 1) :
+    omegaSq (toCartesianQ cl sl co so w) = w * w ∧
+    toCartesianQ cl sl co so w = ⟨(w * (3600000 / 1000000)) * (cl * co), (w * (3600000 / 1000000)) * (cl * so),
+      (w * (3600000 / 1000000)) * sl⟩ :=
+  ⟨omegaSq_toCartesianQ cl sl co so w h1 h2, toCartesianQ_direction cl sl co so w⟩
+
+/-- specification over ℝ (`arctan2 y x = Complex.arg (x + iy)`, unit factors omitted; these definitions are not
+executed — the tie to the code is the oracle of harness/c20.py): spherical → Cartesian → spherical is the
+identity for ω > 0, latitude in (−π/2, π/2), longitude in (−π, π] -/
+theorem spherical_roundtrip_real (lat lon w : ℝ) (hw : 0 < w) (hlat : lat ∈ Set.Ioo (-(Real.pi / 2)) (Real.pi / 2))
+    (hlon : lon ∈ Set.Ioc (-Real.pi) Real.pi) :
+    Spherical.toSpherical (Spherical.toCartesian lat lon w) = (lat, lon, w) :=
+  Spherical.spherical_roundtrip lat lon w hw hlat hlon
+
+/-- … and Cartesian → spherical → Cartesian is the identity for every vector (also on the axis, at the origin) -/
+theorem cartesian_roundtrip_real (x y z : ℝ) :
+    Spherical.toCartesian (Spherical.toSpherical (x, y, z)).1 (Spherical.toSpherical (x, y, z)).2.1
+      (Spherical.toSpherical (x, y, z)).2.2 = (x, y, z) :=
+  Spherical.cartesian_roundtrip x y z
+
 /-! ## Least squares -/
 
 /-- the fitted line satisfies the normal equations -/
@@ -349,6 +452,13 @@ example : lagrange [2, 0, 3, 1] [[4], [0], [9], [1]] 1 3 true false 5 [1 / 2] = 
 example : lagrangeDeriv [0, 1, 2, 3, 4] [[1], [2], [5], [10], [17]] 1 3 true false 2 [1, 5 / 2] (1 / 2)
     = .ok ([[2], [29 / 4]], [[2], [5]]) := by decide +kernel      -- y = x² + 1: y' = 2x
 example : lagrangeDeriv [0, 1, 2, 3, 4] [[1], [2], [5], [10], [17]] 1 3 true false 2 [1, 4] (1 / 2) = .error .above := by
+  decide +kernel
+example : barycentric [2, 0, 3, 1] [[8], [0], [27], [1]] 1 [1 / 2, -1] = .ok [[1 / 8], [-1]] := by decide +kernel   -- y = x³
+example : barycentric [5] [[7, 8]] 2 [1] = .ok [[7, 8]] := by decide +kernel
+example : barycentric [0, 1, 1] [[0], [1], [4]] 1 [1 / 2] = .error .unsorted := by decide +kernel
+example : normSq [3, 4] = 25 ∧ unitVector [3, 4] 5 = [3 / 5, 4 / 5] ∧ takeLast [[1, 2, 3], [4, 5, 6]] 1 = [2, 5] := by
+  decide +kernel
+example : toCartesianQ (3 / 5) (4 / 5) 0 1 2 = ⟨0, 108 / 25, 144 / 25⟩ ∧ omegaSq (toCartesianQ (3 / 5) (4 / 5) 0 1 2) = 4 := by
   decide +kernel
 example : lagrange [0, 1, 1, 3] [[0], [1], [4], [9]] 1 3 true false 2 [1 / 2] = .error .unsorted := by decide +kernel
 example : (computeDops [⟨1/2, 1/2, 1, 0⟩, ⟨1/2, 1/2, 0, 1⟩, ⟨1/2, 1/2, -1, 0⟩, ⟨0, 1, 1, 0⟩, ⟨3/5, 4/5, 0, -1⟩]).isSome = true := by
@@ -387,6 +497,15 @@ end Midgard.Props.C20
 #print axioms Midgard.Props.C20.linear_nodes
 #print axioms Midgard.Props.C20.linear_perm_invariant
 #print axioms Midgard.Props.C20.linear_linear
+#print axioms Midgard.Props.C20.barycentric_is_interpolating_polynomial
+#print axioms Midgard.Props.C20.barycentric_nodes
+#print axioms Midgard.Props.C20.barycentric_perm_invariant
+#print axioms Midgard.Props.C20.barycentric_linear
+#print axioms Midgard.Props.C20.barycentric_polynomial
+#print axioms Midgard.Props.C20.barycentric_eq_full_window_lagrange
+#print axioms Midgard.Props.C20.unit_vector_identities
+#print axioms Midgard.Props.C20.norm_identities
+#print axioms Midgard.Props.C20.take_last_axis
 #print axioms Midgard.Props.C20.dop_pythagoras
 #print axioms Midgard.Props.C20.dop_perm
 #print axioms Midgard.Props.C20.dop_az_rotation
@@ -394,5 +513,8 @@ end Midgard.Props.C20
 #print axioms Midgard.Props.C20.plate_perp
 #print axioms Midgard.Props.C20.plate_speed
 #print axioms Midgard.Props.C20.plate_table_perp
+#print axioms Midgard.Props.C20.to_cartesian_rate_and_direction
+#print axioms Midgard.Props.C20.spherical_roundtrip_real
+#print axioms Midgard.Props.C20.cartesian_roundtrip_real
 #print axioms Midgard.Props.C20.linreg_normal_equations
 #print axioms Midgard.Props.C20.linreg_exact_line
